@@ -120,7 +120,7 @@ class CSSMediaRule(cssrule.CSSRuleRules):
                 nametokens, end = self._tokensupto2(
                     tokenizer, blockstartonly=True, separateEnd=True
                 )
-                wellformed, expected = self._parse(None, nameseq, nametokens, {})
+                wellformed, expected = self._parse(None, nameseq, iter(nametokens), {})
                 if not wellformed:
                     ok = False
                     self._log.error(
